@@ -692,6 +692,11 @@ def analyse(arr, geom, spec, req, k, src_res, stride=1, full=False, also=None):
     tol = PIXEL_TOL_PX * scale
     kern = KERNEL[spec['resampling']]
     band = (PIXEL_TOL_PX + kern) * scale + 1.0
+    if 'g2' in spec['grids']:
+        # cache of cache: upper tiles that straddle the edge of the lower cache's extent are built from thin sub-requests
+        # (a few upper pixels wide) whose level choice and placement are coarse (seen: a 20 px strip taken from the next
+        # coarser lower level, 3 lower pixels off). Pixels within one upper tile of an extent edge are not judged.
+        band += max(spec['grids']['g2']['tile_size']) * mid_res_bound(spec, geom) / geom.out_res
     X, Y = geom.X[sl], geom.Y[sl]
     Xi, Xj, Yi, Yj = geom.Xi[sl], geom.Xj[sl], geom.Yi[sl], geom.Yj[sl]
     inside = geom.inside[sl]
@@ -720,8 +725,9 @@ def analyse(arr, geom, spec, req, k, src_res, stride=1, full=False, also=None):
         is_bg = (arr[sl][..., :3] == bgc).all(axis=2)
         opaque = alpha == 255
     if spec['cached'] and not (spec.get('cache_transparent') and (spec['shape'] != 'tile_src' or spec.get('tile_transparent'))):
-        # an opaque cache paints what it has no tile / no data for in its own background colour (white)
-        is_bg = is_bg | ((arr[sl][..., :3] == 255).all(axis=2) & opaque)
+        # an opaque cache paints what it has no tile / no data for in its own background colour (white; black where
+        # Pillow's mesh transform of an RGB picture had no source pixel)
+        is_bg = is_bg | (((arr[sl][..., :3] == 255).all(axis=2) | (arr[sl][..., :3] == 0).all(axis=2)) & opaque)
     in_mask = fin & (inside > band)
     out_mask = fin & (inside < -band)
     good_in = match & opaque
@@ -757,7 +763,7 @@ def analyse(arr, geom, spec, req, k, src_res, stride=1, full=False, also=None):
         g = grads[c]
         # stay away from the kinks of the triangle wave: the neighbourhood tol+2 px must not contain one
         clear = geo.fold_distance(us[c]) > (tol + 2.0) * (np.abs(dui[c]) + np.abs(duj[c])) + 2.0
-        m = in_mask & good_in & clear & (g >= 0.5)
+        m = in_mask & match & opaque & clear & (g >= 0.5)
         n = int(m.sum())
         if n < 50:
             stats[name] = None
@@ -855,6 +861,8 @@ def judge_map(run, spec, req, resp, ramp, case, n_up_before):
     n_j = r['n_in'] + r['n_out']
     run.hit('getmap_requests')
     run.hit('strong_pixels_judged', r['n_strong'])
+    run.count('strong_pixels:' + spec['shape'], r['n_strong'])
+    run.count('requests:' + spec['shape'])
     run.hit('weak_pixels', r['n_weak'])
     run.hit('outside_pixels_judged', r['n_out'])
     run.dc('pixel_in_extent_edge_band', r['n_band'])
